@@ -489,3 +489,58 @@ class PairwiseMeansWelch(Contract):
 
 
 REGISTRY.append(PairwiseMeansWelch())
+
+
+class PairwiseOverlapHelper(Contract):
+    """C13, overlapping multiple-response columns: comparing item b with the selected item a
+    in a row:  t = (p_b - p_a) / sqrt((pa(1-pa) + pb(1-pb) + 2 pa pb - 2 pab) / df),
+    df = Na + Nb - Nab (respondents valid on a or b), pa = Sa/Na, pb = Sb/Nb, pab = Sab/Nab
+    from the overlap tensors, two-sided Student-t p-value with df - 2 degrees of freedom;
+    an item against itself gives t = 0 and is never significant (p = 1)"""
+
+    name = MOD + ":_PairwiseSignificaneBetweenSubvariablesHelper.t_stats / p_vals"
+    props = ("C13",)
+
+    def configs(self):
+        return [dict(same=False), dict(same=True)]
+
+    def size_space(self, cfg):
+        return {"R": [1, 2], "K": [1, 2, 3]}
+
+    def run(self, B, cfg):
+        R, K = B.size("R", lo=1), B.size("K", lo=1)
+        P = B.tensor("column_proportions", (R, K), maybe_nan=True)
+        S = B.tensor("selected_bases", (R, K, K), nonneg=True)
+        V = B.tensor("valid_bases", (R, K, K), nonneg=True)
+        r = B.integer("row", 0, R - 1)
+        a = B.integer("a", 0, K - 1)
+        b = a if cfg["same"] else B.integer("b", 0, K - 1)
+        if not cfg["same"] and B.mode != "C":
+            B.c.assume(__import__("pvc").core.raw(a != b))
+        if not cfg["same"] and B.mode == "C" and int(a) == int(b):
+            from pvc.harness import SkipInput
+
+            raise SkipInput()
+        h = B.new("%s:_PairwiseSignificaneBetweenSubvariablesHelper" % MOD, P, S, V, r, a, b)
+        t, p = h.t_stats, h.p_vals
+        rd = B.rd
+        if cfg["same"]:
+            B.check("self:t==0", B.feq(t, 0))
+            alpha = B.real("alpha")
+            B.check("self:p==1", B.feq(p, 1))
+            B.check("self:never-significant", B.bor(B.bnot(B.band(alpha > 0, alpha < 1)), B.bnot(p < alpha)))
+            return
+        Sa, Sb, Sab = rd(S, r, a, a), rd(S, r, b, b), rd(S, r, a, b)
+        Na, Nb, Nab = rd(V, r, a, a), rd(V, r, b, b), rd(V, r, a, b)
+        pa, pb, pab = Sa / Na, Sb / Nb, Sab / Nab
+        df = Na + Nb - Nab
+        et = (rd(P, r, b) - rd(P, r, a)) / B.sqrt(1 / df * (pa * (1 - pa) + pb * (1 - pb) + 2 * pa * pb - 2 * pab))
+        B.eq_scalar("t", t, et)
+        B.eq_scalar("p", p, 2 * (1 - B.Tcdf(abs(et), df - 2)))
+
+    def assumptions(self):
+        return ["A-CDF (scipy.stats.t.cdf); overlap tensors selected_bases / valid_bases [row, item, item] as delivered by the "
+                "cube-overlap classes (not under contract: _CatXMrOverlaps, _MrXMrOverlaps)"]
+
+
+REGISTRY.append(PairwiseOverlapHelper())
